@@ -19,13 +19,15 @@ SPEC = dict(
           "closes, one of them with >=2 still-registered observers or observer+cleanup; distinct by op sequence. "
           "lifecycle_tcp/udp: config cell (edge/level triggered, timer service or GC safety net, batching, idle GC, "
           "connectTimeout, maxWriteQueue, reconnect-from-close-callback) x <=22 ops over <=8 sessions (raw peer connects / "
-          "connect / connectSync / connectViaListener to listening, refused, unresolvable, black-hole targets; app close, "
+          "connect / connectSync / connectViaListener to listening, refused, unresolvable, black-hole, TLS-garbage, TLS-stall "
+          "targets; app close, "
           "peer FIN, peer RST, back-pressure burst, data both ways, observe/unobserve/setSessionData, two causes back-to-back "
           "on one session, quiesce, idle-GC wait, stop mid-history) then stop(); non-trivial = >=2 distinct close causes in "
           "the history or two causes racing on one session; distinct by (op kinds, targets, race kinds, cause set)."),
     assumptions=["the harness is single-threaded on the application side (plus callbacks on the I/O thread): concurrency "
                  "between application threads is the subject of C05",
-                 "TLS failure as a close cause is covered by C07's harness, not here",
+                 "TLS failure is generated on the client side only (garbage answer, stalled handshake -> handshakeTimeout); "
+                 "server-side TLS sessions need certificates and are exercised by C07's harness",
                  "bounded-wait bound B = 20 s (>= 100x every expected step); such failures must reproduce 3/3"],
     units=[
         pbt("c02_lifecycle", "harness/c02_lifecycle.cpp", dict(
